@@ -64,6 +64,55 @@ Theorem C09_decide_sat_iff_is_sat : forall pinned s a s' r,
 Proof. exact decide_sat_iff_is_sat. Qed.
 Print Assumptions C09_decide_sat_iff_is_sat.
 
+(* up_fixpoint.  Full statement (kept visible; NOT proved in full, see C09_up_fixpoint_partial):
+   for the code as it is now, on CNFs whose stored clauses have no repeated literal, after new
+   and after every valid history no clause is falsified and none has exactly one unassigned
+   literal occurrence and no true literal. *)
+Definition C09_up_fixpoint_statement : Prop :=
+  forall cls nvars s0 s ds,
+    lits_in_range nvars cls -> Forall (@NoDup lit) cls ->
+    sat_new false cls nvars = NewSome s0 -> reaches false s0 s ds ->
+    fixpoint_ok cls (ss_model (top_state s)) = true.
+
+(* What is proved: the two-watched-literal invariant (S_inv: every clause of length >= 2 is
+   watched by exactly two distinct literals of its own, no list has a repeated entry; V: a
+   clause with a false watched literal has a true literal) is preserved by one
+   UnitPropagate::decide of the repaired code -- for the model on top of the stack, for every
+   model below it (so it survives pop) and also when the decide reports UNSAT -- and it implies
+   the fix-point clause for the resulting model.  Missing for the full statement: that
+   UnitPropagate::new establishes S_inv/V (the scan of 99-117) and the bookkeeping that carries
+   the invariant along the frames of the state stack. *)
+Theorem C09_up_fixpoint_partial : forall nvars cls fuel w m a w' r,
+  lits_in_range nvars cls -> Forall (@NoDup lit) cls -> ~ In [] cls ->
+  S_inv nvars cls w -> length m = nvars -> lvar a < nvars ->
+  up_decide false cls fuel w m a = URes w' r ->
+  S_inv nvars cls w' /\
+  (forall mj, pm_le mj m -> V cls [] w mj -> V cls [] w' mj) /\
+  (forall m', r = Some m' -> V cls [] w m -> units_true cls m ->
+     V cls [] w' m' /\ units_true cls m' /\ length m' = nvars /\ pm_le m m' /\ fixpoint_ok cls m' = true).
+Proof. exact fix_step. Qed.
+Print Assumptions C09_up_fixpoint_partial.
+
+Theorem C09_invariant_implies_fixpoint : forall nvars cls w m,
+  S_inv nvars cls w -> V cls [] w m -> units_true cls m -> ~ In [] cls -> fixpoint_ok cls m = true.
+Proof. exact inv_fixpoint. Qed.
+Print Assumptions C09_invariant_implies_fixpoint.
+
+(* hash_injective.  Full statement (kept visible; NOT proved -- checked only by the
+   correspondence and the oracle): under the guard 0 < product of all literal weights < 2^128,
+   two reachable states with equal hashes have the same residual formula (position by position:
+   the same clauses satisfied, the same literals unassigned in the others). *)
+Definition all_weights (cl : list wclause) : list N := map snd (concat cl).
+Definition residual (cl : list wclause) (m : pmodel) : list (option clause) :=
+  map (fun wc => if wc_sat m wc then None else Some (remaining m (map fst wc))) cl.
+Definition C09_hash_injective_statement : Prop :=
+  forall cls nvars s0 s1 ds1 s2 ds2,
+    sat_new false cls nvars = NewSome s0 ->
+    (0 < fold_right N.mul 1%N (all_weights (s_clauses s0)) < 2 ^ 128)%N ->
+    reaches false s0 s1 ds1 -> reaches false s0 s2 ds2 ->
+    sat_cur_hash s1 = sat_cur_hash s2 ->
+    residual (s_clauses s0) (ss_model (top_state s1)) = residual (s_clauses s0) (ss_model (top_state s2)).
+
 (* D2 (pinned code): after decide(x0=T), pop, decide(x2=F), decide(x0=T) on (¬x0 ∨ ¬x1 ∨ x2),
    x1 is left unassigned although the clause is unit; the repaired code assigns it. *)
 Theorem C09_up_fixpoint_refuted_pinned :
